@@ -131,6 +131,8 @@ NEG = [
     # the code as found: phout dropped the error of its final flush / of Close, jsonEncoder.Flush bufio's error
     ("AggregatorMC", "Aggregator_neg_swallow_final.cfg", True), ("AggregatorMC", "Aggregator_neg_swallow_close.cfg", False),
     ("AggregatorMC", "Aggregator_neg_swallow_tick.cfg", True), ("AggregatorMC", "Aggregator_neg_memory_reach.cfg", False),
+    # the flush tick consumes the drop counter (seed C06-9)
+    ("AggregatorMC", "Aggregator_neg_tickresets.cfg", False),
     ("ShutdownMC", "Shutdown_neg_nowait.cfg", True), ("ShutdownMC", "Shutdown_neg_reach.cfg", False),
     # a first signal while the tasks of a FAILED run are awaited ends the process (seed C06-6)
     ("ShutdownMC", "Shutdown_neg_errsig.cfg", True),
